@@ -132,13 +132,14 @@ class Timeout(Exception):
 def with_timeout(fn, seconds=3):
     def handler(signum, frame):
         raise Timeout()
-    old = signal.signal(signal.SIGALRM, handler)
-    signal.setitimer(signal.ITIMER_REAL, seconds)
+    # processor time of this process, not wall-clock time: a loaded machine must not turn a slow call into "does not return"
+    old = signal.signal(signal.SIGVTALRM, handler)
+    signal.setitimer(signal.ITIMER_VIRTUAL, seconds)
     try:
         return fn()
     finally:
-        signal.setitimer(signal.ITIMER_REAL, 0)
-        signal.signal(signal.SIGALRM, old)
+        signal.setitimer(signal.ITIMER_VIRTUAL, 0)
+        signal.signal(signal.SIGVTALRM, old)
 
 
 def run(tier, seed):
